@@ -108,12 +108,19 @@ def buildTable (peers : List Node) (ts : List (Int × Int × List (Nat × Nat)))
   (ts.foldl (fun (tbl : Tablets.Table) t =>
     (tbl.addTablet (Tablets.Tablet.fromRaw t.1 t.2.1 t.2.2 (translator peers))).1) Tablets.Table.empty).tablets
 
-/-- Peer flags of C12: `[d][x][s<nr_shards>m<msb_ignore>]`; `none` = malformed, `some none` = a node without shards. -/
+/-- `d`, `x` and `g<digit>` (an address group of the harness: peers sharing one address; nodes are identified by host
+id, so the model ignores it). -/
+def flagPrefixOk : List Char → Bool
+  | [] => true
+  | 'g' :: c :: rest => c.isDigit && flagPrefixOk rest
+  | c :: rest => (c == 'd' || c == 'x') && flagPrefixOk rest
+
+/-- Peer flags of C12: `[d][x][g<k>][s<nr_shards>m<msb_ignore>]`; `none` = malformed, `some none` = a node without shards. -/
 def parseFlags (flags : String) : Option (Option SharderM) :=
   match flags.splitOn "s" with
-  | [pre] => if pre.all (fun c => c == 'd' || c == 'x') then some none else none
+  | [pre] => if flagPrefixOk pre.toList then some none else none
   | [pre, suf] =>
-    if !pre.all (fun c => c == 'd' || c == 'x') then none else
+    if !flagPrefixOk pre.toList then none else
     match suf.splitOn "m" with
     | [nr, msb] =>
       if nr.isEmpty || msb.isEmpty || !nr.all Char.isDigit || !msb.all Char.isDigit then none else
@@ -336,7 +343,7 @@ def runHist (topo kss opsS cfg req tbl nSamples impl : String) : String :=
         topos.flatten.any (fun p => p.2.contains 'd')) then "bad-case" else
     let allPeers := topos.flatten
     -- flags well-formed; a host keeps its sharder for the whole history (it is a property of the node)
-    if allPeers.any (fun p => (parseFlags p.2).isNone) then "bad-case" else
+    if allPeers.any (fun p => (parseFlags p.2).isNone || p.2.contains 'g') then "bad-case" else
     if allPeers.any (fun p => allPeers.any (fun q => q.1.node.id == p.1.node.id && parseFlags q.2 != parseFlags p.2)) then "bad-case" else
     let declared : List (Nat × Nat) := (ops.filterMap (fun o => match o with
       | .learn ks tb _ => some (ks, tb) | .payload ks tb _ => some (ks, tb) | .declare ks tb => some (ks, tb)
